@@ -204,6 +204,10 @@ func (h *H) Await(ch chan bool) {
 	h.AwaitEnd()
 }
 func (h *H) HeldLocks() int { return 0 }
+
+// NegativeTimerDelay reports whether some timer was armed (time.NewTimer, Timer.Reset) with a
+// negative delay on this run (engine only).
+func (h *H) NegativeTimerDelay() bool { return false }
 func (h *H) Symbolic() bool { return false }
 func (h *H) GoID() int      { return 0 }
 func (h *H) EnvEvents() int { return 0 }
